@@ -22,5 +22,6 @@ INVARIANT SplitOrderInvariant
 INVARIANT CategoriesPartition
 INVARIANT BoundDominatesFeasibleStates
 INVARIANT YieldsUnique
+INVARIANT DotComponentsMatchSplit
 INVARIANT Emit
 CHECK_DEADLOCK FALSE
